@@ -204,6 +204,9 @@ package stick
 //@ func stick.Equal
 //@   ensures spec: result == (strspec(left) == strspec(right))
 //@ func stick.Contains
+// (the result - some visited element is Equal to the needle - is an existential over the iteration and is not
+// specified: assumption of C16/C05)
+//@   propagates
 //@ func stick.Contains$1
 //@   implements functype:stick.Iteratee
 
@@ -263,7 +266,7 @@ package stick
 //@   at "s.walk(c)" child: c != nil
 // C06: an if node walks its body exactly when the condition is truthy, else its else-part
 //@   at "s.walk(node.Body)" then: truthspec(v)
-//@   at "s.walk(node.Else)" otherwise: !truthspec(v)
+//@   at "s.walk(node.Else)" otherwise: !truthspec(v) && node.Else != nil
 //@   propagates
 //@   ensures wfail: wfail() && !old(wfail()) ==> err != nil
 //@   ensures order: wafterfail() ==> old(wafterfail()) || old(wfail())
